@@ -150,6 +150,13 @@ where
             let b = range.end;
 
             let mut x_temp = *x;
+            // Reflecting is periodic with period `2 * (b - a)`: skip whole periods up front, as a
+            // far-away value otherwise needs one iteration per period or never gets closer at all.
+            let period = 2. * (b - a);
+            let offset = x_temp - a;
+            if offset.abs() > period && offset.is_finite() && period.is_finite() {
+                x_temp = a + offset % period;
+            }
             while x_temp < a || x_temp > b {
                 x_temp = match x_temp {
                     v if v < a => a + (a - v),
